@@ -740,11 +740,17 @@ def _rawsvg_docs(
             # Firefox likes to render blank if present
             .remove_attributes(("enable-background",), inplace=True)
         )
+        glyph_element_id = f"glyph{color_glyph.glyph_id}"
+        # the source may use that id already (e.g. svgs extracted from an OT-SVG font);
+        # ids must stay unique and this one has to be the new group's
+        for el in svg.svg_root.iter("*"):
+            if el.attrib.get("id") == glyph_element_id:
+                del el.attrib["id"]
         g = etree.Element(
             "g",
             {
                 # Map gid => svg doc
-                "id": f"glyph{color_glyph.glyph_id}",
+                "id": glyph_element_id,
                 # map viewBox to OT-SVG space (+x,-y)
                 "transform": _svg_matrix(color_glyph.transform_for_otsvg_space()),
             },
